@@ -39,7 +39,10 @@ func MakeActors() *Actors {
 	p1, p2 := addr20("prov1"), addr20("prov2")
 	p3 := sdk.AccAddress(append(append([]byte{}, sha256Sum("prov3")[:15]...), []byte(denom)...)) // 20 bytes ending in the denom
 	p4 := sdk.AccAddress(append(append([]byte{}, p1[:19]...), 0x00))                               // differs from p1 in the last byte, ends in 0x00
-	a.SignProv = []sdk.AccAddress{p1, p2, p3, p4, a.Owners[0]}
+	p19 := sdk.AccAddress(sha256Sum("prov19")[:19])               // 19 bytes
+	q := sdk.AccAddress(append(append([]byte{}, p19...), 0x01))   // p19 followed by a byte that sorts before the denom
+	pff := sdk.AccAddress(append([]byte{0xff}, sha256Sum("provff")[:19]...)) // leading 0xff
+	a.SignProv = []sdk.AccAddress{p1, p2, p3, p4, a.Owners[0], q, pff}
 	a.OddProv = []sdk.AccAddress{
 		append(sdk.AccAddress{}, p1[:13]...),                       // 13-byte prefix of p1
 		append(sdk.AccAddress{}, p2[:1]...),                        // 1-byte prefix of p2
@@ -49,12 +52,14 @@ func MakeActors() *Actors {
 		append(append(sdk.AccAddress{}, sha256Sum("odd40")...), sha256Sum("odd40b")[:8]...), // 40 bytes
 		sdk.AccAddress{0x00, 0x00, 0x01},                           // embedded zero bytes
 		append(sdk.AccAddress{}, p3[:15]...),                       // p3 without its "stake" tail
+		p19,                                                        // 19-byte prefix of the signer provider q
 	}
 	a.Wallets = []sdk.AccAddress{addr20("wallet1"), addr20("wallet2")}
 	a.All20 = append(a.All20, a.Owners...)
 	a.All20 = append(a.All20, a.Consumers...)
 	a.All20 = append(a.All20, a.Stranger, a.ModCons)
 	a.All20 = append(a.All20, a.SignProv[:4]...)
+	a.All20 = append(a.All20, a.SignProv[5:]...)
 	a.All20 = append(a.All20, a.Wallets...)
 	return a
 }
@@ -70,8 +75,10 @@ func (a *Actors) FundAll(r *Run, rich, mid, poor int64) {
 	}
 	r.Fund("stranger", a.Stranger, 1_000_000)
 	r.Fund("modconsumer", a.ModCons, mid)
-	for i, p := range a.SignProv[:4] {
-		r.Fund(fmt.Sprintf("prov%d", i+1), p, 1000)
+	for i, p := range a.SignProv {
+		if i != 4 {
+			r.Fund(fmt.Sprintf("prov%d", i+1), p, 1000)
+		}
 	}
 	for i, p := range a.OddProv {
 		r.TrackOnly(fmt.Sprintf("odd%d", i+1), p)
@@ -90,12 +97,23 @@ func (a *Actors) FundAll(r *Run, rich, mid, poor int64) {
 var serviceNames = []string{"sv", "svc", "sv-c", "sv_c", "s" + strings.Repeat("v", 69)}
 
 const goodSchemas = `{"input":{"type":"object"},"output":{"type":"object"}}`
+
+// a definition whose own output schema is strict: bodies that violate it are still
+// well-formed responses in the sense of the module-wide output schema
+const strictSchemas = `{"input":{"type":"object","properties":{"q":{"type":"string"}},"required":["q"]},"output":{"type":"object","properties":{"x":{"type":"integer"}},"required":["x"],"additionalProperties":false}}`
+
+func someSchemas(rng *rand.Rand) string {
+	if rng.Intn(3) == 0 {
+		return strictSchemas
+	}
+	return goodSchemas
+}
 const goodInput = `{"header":{},"body":{}}`
 const goodOutput = `{"header":{},"body":{}}`
 const goodResult = `{"code":200,"message":""}`
 
 var malformedOutputs = []string{`{"body":{}}`, `[]`, `"x"`, `{"header":1}`, `{"header":{},"body":3}`, `7`, `{"header":[]}`}
-var goodOutputs = []string{goodOutput, `{"header":{}}`, `{"header":{"a":1},"body":{"b":[1,2]},"extra":true}`}
+var goodOutputs = []string{goodOutput, `{"header":{}}`, `{"header":{"a":1},"body":{"b":[1,2]},"extra":true}`, `{"header":{},"body":{"x":"not-an-integer"}}`, `{"header":{},"body":{"x":1}}`, `{"header":{},"body":{"y":[]}}`}
 
 func pick(rng *rand.Rand, n int) int { return rng.Intn(n) }
 
@@ -118,14 +136,15 @@ func RandParams(rng *rand.Rand) types.Params {
 	return p
 }
 
-var discounts = []string{"0.1", "0.5", "0.9", "0.999", "0.000000000000000001", "0.25", "0.3333"}
+var discounts = []string{"0.1", "0.5", "0.9", "0.999", "0.000000000000000001", "0.25", "0.3333", "0.8", "0.7", "0.3"}
 
 // RandPricing builds a pricing text. Time windows are multiples of 5 s from genesis so
 // that block times land exactly on, just inside and just outside the boundaries.
 func RandPricing(rng *rand.Rand, base string) string {
 	var sb strings.Builder
 	fmt.Fprintf(&sb, `{"price":"%s%s"`, base, denom)
-	if rng.Intn(3) == 0 {
+	both := rng.Intn(4) == 0
+	if both || rng.Intn(3) == 0 {
 		n := 1 + rng.Intn(2)
 		sb.WriteString(`,"promotions_by_time":[`)
 		start := int64(5 * (1 + rng.Intn(4)))
@@ -140,7 +159,7 @@ func RandPricing(rng *rand.Rand, base string) string {
 		}
 		sb.WriteString("]")
 	}
-	if rng.Intn(3) == 0 {
+	if both || rng.Intn(3) == 0 {
 		n := 1 + rng.Intn(3)
 		sb.WriteString(`,"promotions_by_volume":[`)
 		v := 1 + rng.Intn(2)
@@ -157,7 +176,7 @@ func RandPricing(rng *rand.Rand, base string) string {
 	return sb.String()
 }
 
-var basePrices = []string{"0", "1", "2", "3", "10", "100", "0.5", "1.9", "2.000000000000000001", "7"}
+var basePrices = []string{"0", "1", "2", "3", "10", "100", "0.5", "1.9", "2.000000000000000001", "7", "5", "11", "13", "99"}
 
 func coins(n int64) sdk.Coins {
 	if n == 0 {
@@ -261,7 +280,7 @@ func (g *Gen) opDefine() {
 	name := serviceNames[pick(g.rng, len(serviceNames))]
 	author := g.any20()
 	tags := []string{"t1", "t2"}[:g.rng.Intn(3)]
-	g.r.Msg(types.NewMsgDefineService(name, "desc", tags, author, "author", goodSchemas), "")
+	g.r.Msg(types.NewMsgDefineService(name, "desc", tags, author, "author", someSchemas(g.rng)), "")
 }
 
 func (g *Gen) opBind(friendly bool) {
@@ -500,9 +519,11 @@ func (g *Gen) opRespond() {
 	} else {
 		prov = g.A.SignProv[0]
 	}
-	if len(prov) != 20 || g.rng.Intn(7) == 0 {
+	if (len(prov) != 20 && g.rng.Intn(2) == 0) || g.rng.Intn(7) == 0 {
 		prov = g.wrongSigner(prov)
 		note += " wrong-signer"
+	} else if len(prov) != 20 {
+		note += " odd-length-provider-signs"
 	}
 	result, output := goodResult, goodOutputs[pick(g.rng, len(goodOutputs))]
 	switch g.rng.Intn(7) {
@@ -627,6 +648,10 @@ func (g *Gen) opModCreate() {
 		op.Freq = uint64(timeout) + uint64(g.rng.Intn(3))
 		op.Total = []int64{1, 2, 3, -1}[pick(g.rng, 4)]
 	}
+	if g.rng.Intn(6) == 0 {
+		op.Module = halfModule // registered a response callback only: must be refused
+		op.Consumer = hexs(g.A.Consumers[2])
+	}
 	res := g.r.Mod(op, "")
 	if res.OK {
 		g.modCtxs = append(g.modCtxs, res.NewCtxID)
@@ -681,6 +706,23 @@ func (g *Gen) opModSvcCall() {
 	g.r.Msg(types.NewMsgCallService(modSvcName, []sdk.AccAddress{g.r.w.a.modSvcProvider}, cons, `{"header":{},"body":{"pair":"a-b"}}`, coins(cap), 1, false, false, 0, 0), "module-service")
 }
 
+func (g *Gen) opRestart() {
+	if g.rng.Intn(2) == 0 {
+		g.r.Restart()
+		// afterwards the consumers start their contexts again
+		for _, id := range sortedKeys(g.r.pre.Contexts) {
+			rc := g.r.pre.Contexts[id]
+			if g.rng.Intn(3) != 0 {
+				if rc.ModuleName == "" {
+					g.r.Msg(types.NewMsgStartRequestContext(unhex(id), rc.Consumer), "start after restart")
+				} else if rc.ModuleName == verifModule {
+					g.r.Mod(ModOp{Op: "start", CtxID: id, Consumer: hexs(rc.Consumer)}, "start after restart")
+				}
+			}
+		}
+	}
+}
+
 type wop struct {
 	w int
 	f func()
@@ -692,7 +734,7 @@ func (g *Gen) Step() {
 		{2, g.opDefine}, {5, func() { g.opBind(false) }}, {5, g.opUpdateBinding}, {3, g.opDisable}, {3, g.opEnable}, {3, g.opRefund},
 		{2, g.opSetWithdraw}, {10, g.opCall}, {18, g.opRespond}, {3, func() { g.opCtxControl(0) }}, {3, func() { g.opCtxControl(1) }},
 		{2, func() { g.opCtxControl(2) }}, {3, func() { g.opCtxControl(3) }}, {5, g.opWithdraw}, {24, g.opBlock},
-		{3, g.opModCreate}, {3, g.opModControl}, {3, g.opModSvcCall},
+		{3, g.opModCreate}, {3, g.opModControl}, {3, g.opModSvcCall}, {1, g.opRestart},
 	}
 	tot := 0
 	for _, o := range ops {
@@ -720,6 +762,7 @@ func RandomHistory(a *App, mon *Mon, seed int64, n int) *Run {
 	if r.rng.Intn(3) != 0 {
 		r.InstallModuleService(RandPricing(r.rng, []string{"0", "1", "3", "0.5", "10"}[pick(r.rng, 5)]))
 	}
+	r.SetStateCbKill(r.rng.Intn(5) == 0)
 	r.Begin()
 	g := NewGen(r, act)
 	g.Bootstrap()
